@@ -283,7 +283,21 @@ def run(tier, replay):
                 V.known("KF_LastMergeSkipped", desc)
             else:
                 V.violation("the final result counts %d of %d lines" % (res["final"], res["total"]), desc)
-        cov = {"states": states, "transitions": trans, "session_traces_checked_against_MaprSchedTrace": tv_done, "session_traces_accepted": tv_acc, "trace_binding_selftest": binding_selftest, "traces_validated_against_impl": followed_full + dfollowed + len(ccases),
+        # the periodic reporter rendering interim results while the servers' handlers are still merging
+        ro = os.path.join(wd, "reporter.json")
+        rc, out = vlib.go_test(wd, "./internal/clients/handlers", OVC, "TestC06Reporter", env={"VERIF_OUT": ro, "VERIF_N": 3000 if tier == "quick" else 40000}, timeout=900)
+        if rc != 0 and "fatal error: concurrent map" in out:
+            i = out.index("fatal error: concurrent map")
+            V.violation("the client process died while the reporter rendered an interim result: " + out[i:i + 60].splitlines()[0],
+                        {"output": out[i:i + 1500]})
+            rep = {"expected": 0, "counted": 0, "reports": 0}
+        elif rc != 0 or not os.path.exists(ro):
+            raise vlib.Inconclusive("reporter harness failed\n" + out[-2500:])
+        else:
+            rep = json.load(open(ro))
+            if rep["counted"] != rep["expected"]:
+                V.violation("with a reporter rendering interim results the final result counts %d of %d lines" % (rep["counted"], rep["expected"]), rep)
+        cov = {"interim_reports_during_merges": rep["reports"], "states": states, "transitions": trans, "session_traces_checked_against_MaprSchedTrace": tv_done, "session_traces_accepted": tv_acc, "trace_binding_selftest": binding_selftest, "traces_validated_against_impl": followed_full + dfollowed + len(ccases),
                "evaluations": len(cases) + len(dcases) + len(ccases),
                "distinct_nontrivial": sum(1 for c in cases if not c["free"]) + sum(1 for c in ccases if c["sched"]),
                "rule": "server cases = distinct behaviours of MaprSchedGen (order of registration / closed-channel decision / re-queue steps) from "
